@@ -500,7 +500,7 @@ func (w *Worker) mapFind(m *MapV, key Value) int {
 func (w *Worker) lookup(instr *ssa.Lookup, x, idx Value) Value {
 	switch x := x.(type) {
 	case *StrV:
-		return w.index(x, idx)
+		return w.index(x, idx, instr.Index.Type())
 	case *MapV:
 		vt := instr.X.Type().Underlying().(*types.Map).Elem()
 		i := w.mapFind(x, idx)
@@ -586,7 +586,7 @@ func (w *Worker) iterNext(it *IterV, instr *ssa.Next) Value {
 				it.Pos++
 				return TupleV{tf.True, tf.Const(64, uint64(pos)), tf.Zext(b0, 32)}
 			}
-			panic(pathAbort{"unsupported", "range over string with symbolic non-ASCII byte"})
+			return w.decodeRuneSym(it, pos)
 		}
 		if b0.Val < 0x80 {
 			it.Pos++
@@ -596,7 +596,7 @@ func (w *Worker) iterNext(it *IterV, instr *ssa.Next) Value {
 		var buf []byte
 		for i := pos; i < len(s.B) && i < pos+4; i++ {
 			if !s.B[i].IsConst() {
-				panic(pathAbort{"unsupported", "range over string with symbolic continuation byte"})
+				return w.decodeRuneSym(it, pos)
 			}
 			buf = append(buf, byte(s.B[i].Val))
 		}
@@ -624,6 +624,23 @@ func (w *Worker) iterNext(it *IterV, instr *ssa.Next) Value {
 	}
 	mt := instr.Iter.(*ssa.Range).X.Type().Underlying().(*types.Map)
 	return TupleV{tf.False, w.zero(mt.Key()), w.zero(mt.Elem())}
+}
+
+// decodeRuneSym decodes the rune at pos of a string with symbolic bytes by
+// running the real unicode/utf8.DecodeRuneInString symbolically.
+func (w *Worker) decodeRuneSym(it *IterV, pos int) Value {
+	pkg := w.P.Prog.ImportedPackage("unicode/utf8")
+	if pkg == nil || pkg.Func("DecodeRuneInString") == nil {
+		panic(pathAbort{"unsupported", "range over string with symbolic non-ASCII byte (unicode/utf8 not loaded)"})
+	}
+	end := pos + 4
+	if end > len(it.S.B) {
+		end = len(it.S.B)
+	}
+	r := w.call(w.cur, pkg.Func("DecodeRuneInString"), []Value{&StrV{B: it.S.B[pos:end]}}, nil).(TupleV)
+	size := int(w.Concretize(r[1].(*term.Term), "rune size", 5))
+	it.Pos += size
+	return TupleV{w.TF.True, w.TF.Const(64, uint64(pos)), r[0]}
 }
 
 func isSameKey(a, b Value) bool {
